@@ -40,6 +40,7 @@ impl SutotonList {
     }
     fn set_item(&mut self, name: &str, value: &str) {
         let len = name.chars().count();
+        if len == 0 { return; } // an empty word would match everywhere without consuming anything
         for it in self.items.iter_mut() {
             if it.length != len {
                 continue;
